@@ -114,7 +114,7 @@ a(r'SymbolFile>::parse(_async::\{closure#0\})?\|assert:overflow:Add\|total_consu
 a(r'SymbolFile>::parse(_async::\{closure#0\})?\|assert:overflow:Add\|parser\.lines 1', 'u64 line counter')
 a(r'SymbolFile>::parse(_async::\{closure#0\})?\|assert:div_zero\|new_cap', 'the divisor is the literal 1024 (the listed operand is the dividend)')
 a(r'SymbolFile>::parse(_async::\{closure#0\})?\|call:index:index\|input \(adt std::ops::RangeTo::RangeTo consumed\)', 'consumed is the Ok payload of parse_more(input), which returns 0 or the length of a prefix of input', 'C10.2')
-a(r'SymbolFile>::fill_symbol\|assert:overflow:Add\|(func|public)\.address', 'the record was found by looking up addr = instruction - base, so record.address <= addr and record.address + base <= instruction', 'C11.3')
+a(r'SymbolFile>::fill_symbol\|assert:overflow:Add\|(func|public)\.address', 'the record was found by looking up addr = instruction - base, so record.address <= addr and record.address + base <= instruction', 'C11.3,C11.3b,C11.4')
 a(r'SymbolFile>::fill_symbol\|assert:overflow:Add\|address \(minidump_common::traits::Module::base_address module\)', 'address of the line / inlinee record covering addr: address <= addr = instruction - base', 'C11.3')
 a(r'SymbolFile>::walk_frame::\{closure#0\}\|call:index:index\|info\.add_rules', 'count <= len by the while condition `count < len`')
 a(r'breakpad_symbols::moz_lookup\|call:unwrap:unwrap', 'server_rel is built by the lookup functions as "<name>/<id>/<file>": never empty', 'C17.3')
@@ -132,7 +132,7 @@ a(r'mips::get_caller_by_scan32::\{closure#0\}\|assert:overflow:Sub\|count', 'cou
 a(r'mips::get_caller_by_scan32::\{closure#0\}\|assert:overflow:Mul\|i', 'i < count <= MAX_STACK_SIZE / POINTER_WIDTH = 256, POINTER_WIDTH = 4')
 a(r'symbols::debuginfo::', 'cfg(feature = "debuginfo") code path (native debug info through framehop/wholesym); outside the Breakpad-symbol pipeline the properties quantify over. ASSUMPTION: not analysed further')
 a(r'minidump_unwind::CallStack::print\|assert:overflow:Add\|frame_count 1', 'usize frame counter, one step per printed frame')
-a(r'minidump_unwind::CallStack::print\|call:op_trait:sub\|addr (src_base|func_base)', 'addr - base on &u64 references: function_base / source_line_base were set by fill_symbol from a record covering addr, so base <= addr', 'C11.3')
+a(r'minidump_unwind::CallStack::print\|call:op_trait:sub\|addr (src_base|func_base)', 'addr - base on &u64 references: function_base / source_line_base were set by fill_symbol from a record covering addr, so base <= addr', 'C11.3,C11.3b,C11.4,C11.5')
 a(r'minidump_unwind::CallStack::print\|assert:overflow:Sub\|addr \(<minidump::MinidumpModule as minidump::Module>::base_address module\)', 'frame.module came from module_at_address(frame.instruction): base <= addr', 'C05.7')
 a(r'CallStack::print::print_registers\|call:string_api:truncate\|output 0', 'truncate(0) is always a char boundary')
 a(r'minidump_unwind::walk_stack::\{closure#0\}::\{closure#0\}\|assert:overflow:Sub\|\(std::vec::Vec::len stack\.frames\) 1', 'loop runs only while has_new_frame, which is initialised to !frames.is_empty() and set after a push')
@@ -171,7 +171,7 @@ a(r'ProcessState::print_json\|call:index:index_mut\|frames 0', 'dominated by `if
 a(r'ProcessState::print_json\|call:unwrap:unwrap\|\(serde_json::Value::as_object_mut \(<std::vec::Vec', 'each frame is a json!{} object literal')
 a(r'ProcessState::print_json::.*\|call:index_json:index_mut\|map "', 'map is a json!{} object literal; indexing an object with a string key inserts')
 a(r'ProcessState::print_json::\{closure#15\}::\{closure#1\}::\{closure#2\}\|assert:overflow:Sub\|frame\.instruction module\.raw\.base_of_image', 'frame.module came from module_at_address(frame.instruction)', 'C05.7')
-a(r'ProcessState::print_json::\{closure#15\}::\{closure#1\}::\{closure#4\}\|assert:overflow:Sub\|frame\.instruction func_base', 'function_base was set by fill_symbol from a record covering the address', 'C11.3')
+a(r'ProcessState::print_json::\{closure#15\}::\{closure#1\}::\{closure#4\}\|assert:overflow:Sub\|frame\.instruction func_base', 'function_base was set by fill_symbol from a record covering the address', 'C11.3,C11.3b,C11.4,C11.5')
 a(r'PendingProcessorStats::(get_thread_count|get_frame_count|drain_new_frames|take_unwalked_result)\|call:panic:begin_panic', 'documented API-misuse assert (getter used without the matching subscription); the only in-tree caller, minidump-stackwalk, subscribes to frame_count and thread_count before calling get_thread_count / get_frame_count and calls no other getter', 'C20.subscriptions')
 a(r'PendingProcessorStats::drain_new_frames\|call:vec_api:drain', 'drain(..) with RangeFull cannot fail')
 a(r'PendingProcessorStats::(inc_processed_threads|add_walked_frame)\|assert:overflow:Add', 'u64 progress counter')
